@@ -31,8 +31,12 @@ ASSUMPTIONS = [
 def cases(draw, max_chroms=4, max_bins=6, max_width=8):
     bt = draw(gen.bin_tables(max_chroms=max_chroms, max_bins=max_bins, max_width=max_width, scale=False,
                              all_fixed_prob=0.3))
-    if draw(st.integers(0, 9)) == 0:
-        s = draw(st.sampled_from([1000, 100000]))
+    if draw(st.integers(0, 6)) == 0:
+        s = draw(st.sampled_from([1000, 100000, "max", "max"]))
+        if s == "max":
+            # the longest chromosome ends just below 2**31 (lengths and coordinates are stored as 32-bit integers):
+            # length + bin width no longer fits that type
+            s = (2**31 - 1) // max(e[-1] for e in bt["edges"])
         bt = dict(bt, edges=[[x * s for x in e] for e in bt["edges"]], b=bt["b"] * s)
     n = gen.n_bins(bt)
     symmetric = draw(st.booleans())
@@ -54,8 +58,7 @@ def _regions(name, e):
             for t in range(s, L + 1):
                 yield s, t
     else:
-        pts = sorted({0, 1, L - 1, L, *[x + d for x in e for d in (-1, 0, 1)]} & set(range(L + 1)) | {0, L})
-        pts = [p for p in pts if 0 <= p <= L]
+        pts = sorted(p for p in {0, 1, L - 1, L, *[x + d for x in e for d in (-1, 0, 1)]} if 0 <= p <= L)
         for a in pts:
             for b in pts:
                 if a <= b:
@@ -99,7 +102,9 @@ def check_extent(case, ctx: Ctx):
     n_eval = n_nt = 0
     cls: dict[str, int] = {}
     try:
-        if case.get("prior_layout"):
+        # (the earlier layout doubles every coordinate: only where that still fits the 32-bit coordinate type)
+        prior = case.get("prior_layout") if 2 * max(e[-1] for e in bt["edges"]) < 2**31 else None
+        if prior:
             bt0 = dict(bt, edges=[[2 * x for x in e] for e in bt["edges"]], b=bt["b"] * 2)
             call("create (earlier collection at the same path)", create_from_model, path, bt0, rows, symmetric, h5opts={"compression": None})
             c0 = cooler.Cooler(path)
@@ -111,7 +116,7 @@ def check_extent(case, ctx: Ctx):
                         check((int(got0[0]), int(got0[1])) == want0, lambda: f"extent(({nm!r}, {s0}, {t0})) = {got0}, want {want0}")
             del c0
         call("create", create_from_model, path, bt, rows, symmetric, h5opts={"compression": None},
-             **({"mode": case["prior_layout"]} if case.get("prior_layout") else {}))
+             **({"mode": prior} if prior else {}))
         if case["store"] == "handle":
             fh = h5py.File(path, "r")
             clr = cooler.Cooler(fh)
@@ -231,7 +236,7 @@ def check_extent(case, ctx: Ctx):
     ctx.record(case, n_nt > 0, ["extent", *["kind-" + k for k in kinds], "store-" + case["store"],
                                 "reported-fixed" if model.true_binsize(bt) else "reported-variable",
                                 "renamed-" + str(case.get("rename")) if case["store"] == "path" else "renamed-None",
-                                "after-other-layout-at-same-path" if case.get("prior_layout") else "fresh-path"],
+                                "after-other-layout-at-same-path" if prior else "fresh-path", "near-2^31" if max(e[-1] for e in bt["edges"]) > 2**30 else "small-coordinates"],
                n_eval=n_eval, n_nontrivial=n_nt)
 
 
